@@ -141,3 +141,26 @@ Proof.
   - cbn. intros t s' H Hit. rewrite Hn in H. inversion H; subst. congruence.
   - cbn. exists w. split; [eapply next_peek; exact Hn|exact Hs].
 Qed.
+
+(* white-space only after the value *)
+Lemma skip_while_all_ws tl p : Forall (fun b => is_ws b = true) tl -> skip_while is_ws p tl = (p + lenN tl, []).
+Proof.
+  intros H. revert p. induction H as [|b tl Hb Ht IH]; intros p; cbn [skip_while].
+  - change (lenN (@nil N)) with 0. f_equal. lia.
+  - rewrite Hb, IH. f_equal. rewrite lenN_cons. lia.
+Qed.
+Lemma next_all_ws tl p : Forall (fun b => is_ws b = true) tl -> next (mkLx p tl) = Err E_EOF.
+Proof.
+  intros H. unfold next, next_word. cbn [lrest]. destruct tl as [|b tl']; [reflexivity|].
+  unfold skip_ws. cbn [lpos lrest]. rewrite (skip_while_all_ws _ _ H). reflexivity.
+Qed.
+Lemma follow_ws_tail_any tl p : Forall (fun b => is_ws b = true) tl ->
+  follow_ok [] (mkLx p tl) /\ nostream_at [] (mkLx p tl).
+Proof.
+  intros H. split.
+  - cbn. intros t s' E. rewrite (next_all_ws _ _ H) in E. discriminate.
+  - cbn. exists []. split; [|reflexivity]. unfold peek.
+    pose proof (next_all_ws _ p H) as E. unfold next in E.
+    destruct (next_word (mkLx p tl)) as [[[t q] s']|e| |]; cbn [bind] in E; try discriminate.
+    inversion E; subst. reflexivity.
+Qed.
